@@ -140,9 +140,11 @@ def real(case):
     except Exception as e:
         out["clock"] = ("err", type(e).__name__)
     if end >= start:
-        for name, f in (("weekly", lambda: WeeklyRebalance(S, E, WD[wd], pre_market=premkt).rebalances),
-                        ("daily", lambda: DailyRebalance(S, E, pre_market=premkt).rebalances),
-                        ("eom", lambda: EndOfMonthRebalance(S, E, pre_market=premkt).rebalances)):
+        # when pre-market is NOT chosen the flag is simply left out for every other range (as a backtest session does)
+        kw = {} if (not premkt and (start // 1440) % 2 == 0) else dict(pre_market=premkt)
+        for name, f in (("weekly", lambda: WeeklyRebalance(S, E, WD[wd], **kw).rebalances),
+                        ("daily", lambda: DailyRebalance(S, E, **kw).rebalances),
+                        ("eom", lambda: EndOfMonthRebalance(S, E, **kw).rebalances)):
             try:
                 out[name] = ("ok", [exact(t) for t in f()])
             except Exception as e:
